@@ -98,6 +98,7 @@ type fnCtx struct {
 	dead         map[string]bool
 	defers       []*ssa.Defer
 	hasRecov     bool
+	inDefer      bool // translating a deferred call on a normal return: recover() yields nil
 	notes        []string
 	panics       []string // reach conditions of explicit panics (inline mode)
 	ghost        map[string]string
@@ -143,14 +144,29 @@ func (c *fnCtx) fnName() string { return c.eng.fnKey(c.f) }
 
 // ---------------------------------------------------------------------------------------------
 
+// haltClasses: obligations whose violation stops the execution (run-time panics, violated callee preconditions).
+// Everything translated after such a check is only reached when the check passed ("assert, then assume"): the
+// reach predicate of the block is strengthened with the condition, so that facts about later instructions of the
+// same block (type invariants of loaded values, callee postconditions ...) cannot make an earlier check vacuous.
+var haltClasses = map[string]bool{"div": true, "nil": true, "idx": true, "make": true, "mapnil": true, "panic": true, "slice": true, "typeassert": true, "pre": true}
+
+func (c *fnCtx) assumePassed(class, guard, cond string) {
+	if !haltClasses[class] || cond == "true" || c.curB == nil {
+		return
+	}
+	c.reach[c.curB] = c.em.define("ok", "Bool", "(and "+guard+" "+cond+")")
+}
+
 func (c *fnCtx) addObl(class string, pos token.Pos, cond string, text string) *Obl {
+	guard := c.reach[c.curB]
+	defer c.assumePassed(class, guard, cond)
 	if c.mute {
 		return nil
 	}
 	if text == "" {
 		text = c.eng.srcText(pos)
 	}
-	o := &Obl{Class: class, Fn: c.fnName(), Pos: c.eng.prog.Fset.Position(pos), Text: text, Guard: c.reach[c.curB], Cond: cond}
+	o := &Obl{Class: class, Fn: c.fnName(), Pos: c.eng.prog.Fset.Position(pos), Text: text, Guard: guard, Cond: cond}
 	key := class + ":" + text
 	n := c.occ[key]
 	c.occ[key] = n + 1
@@ -898,7 +914,7 @@ func (c *fnCtx) unop(in *ssa.UnOp) {
 		c.nilCheck(in.X, in.Pos())
 		el := in.X.Type().Underlying().(*types.Pointer).Elem()
 		v := c.load(c.val(in.X), el)
-		if g, ok := in.X.(*ssa.Global); ok && v.K == KIface && c.eng.initOnlyNonNil(g) {
+		if g, ok := in.X.(*ssa.Global); ok && (v.K == KIface || v.K == KPtr) && c.eng.initOnlyNonNil(g) {
 			// package-level error values initialised once (errors.New / fmt.Errorf in init) are never nil
 			c.em.assert("(not (= " + v.T[0] + " 0))")
 		}
@@ -1075,9 +1091,45 @@ func (c *fnCtx) runDefers() {
 	for i := len(c.defers) - 1; i >= 0; i-- {
 		d := c.defers[i]
 		cc := d.Common()
-		ms := newModSet()
-		c.eng.callMods(ms, cc, c.f)
-		c.havocSet(ms)
+		run := func() {
+			// on a normal (non-panicking) return a deferred module function that is small enough runs inlined, with
+			// recover() returning nil; everything else is abstracted by its write set
+			callee := cc.StaticCallee()
+			var closure *ssa.MakeClosure
+			if mc, ok := cc.Value.(*ssa.MakeClosure); ok {
+				closure = mc
+			}
+			if callee != nil && !cc.IsInvoke() && c.eng.isModule(callee) && callee.Blocks != nil && c.canInline(callee) && !c.mute {
+				var args []*Val
+				for _, a := range cc.Args {
+					args = append(args, c.val(a))
+				}
+				r := c.root()
+				saved := r.inDefer
+				r.inDefer = true
+				c.inline(d, callee, closure, args, nil)
+				r.inDefer = saved
+				return
+			}
+			ms := newModSet()
+			c.eng.callMods(ms, cc, c.f)
+			c.havocSet(ms)
+		}
+		inLoop := false
+		for _, li := range c.loops {
+			if li.blocks[d.Block()] {
+				inLoop = true
+			}
+		}
+		cond, ok := c.reach[d.Block()]
+		if inLoop || !ok || c.curB == nil || d.Block() == c.curB || d.Block().Dominates(c.curB) {
+			run()
+			continue
+		}
+		// a defer statement under a condition runs only on the executions that passed through it
+		before := c.st.clone()
+		run()
+		c.st = c.mergeStates([]*State{c.st, before}, []string{cond, "(not " + cond + ")"})
 	}
 }
 
